@@ -532,6 +532,7 @@ func nestCases(quick bool) []nestCase {
 }
 
 type srcMode struct {
+	fixed  []srcCase
 	trunc  []string
 	nc     []nestCase
 	o      *opts
@@ -548,6 +549,12 @@ type srcMode struct {
 func newSrcMode(o *opts) *srcMode {
 	m := &srcMode{o: o, nc: nestCases(o.tier != "thorough")}
 	m.nNest = int64(len(m.nc))
+	for k, p := range escapePrograms() {
+		m.fixed = append(m.fixed, srcCase{Cat: "escape", Recipe: fmt.Sprintf("escapePrograms()[%d]: *args / **kwargs values used after the caller went on evaluating", k), Src: p})
+	}
+	for k, p := range callShapePrograms() {
+		m.fixed = append(m.fixed, srcCase{Cat: "callshape", Recipe: fmt.Sprintf("callShapePrograms()[%d]: %s", k, strings.SplitN(p[len(callPrelude):], "\n", 2)[0]), Src: p})
+	}
 	seenT := map[string]bool{}
 	for _, p := range truncPrograms {
 		for i := 0; i <= len(p); i++ {
@@ -598,9 +605,10 @@ func (m *srcMode) Spans(workers int) []span {
 	for p := int64(0); p < parts; p++ {
 		out = append(out, span{m.nNest * p / parts, m.nNest * (p + 1) / parts})
 	}
-	chunk := m.nRand/int64(workers*3) + 1
-	for lo := m.nNest; lo < m.nNest+m.nRand; lo += chunk {
-		out = append(out, span{lo, min(lo+chunk, m.nNest+m.nRand)})
+	end := m.nNest + m.nRand + int64(len(m.fixed))
+	chunk := (end-m.nNest)/int64(workers*3) + 1
+	for lo := m.nNest; lo < end; lo += chunk {
+		out = append(out, span{lo, min(lo+chunk, end)})
 	}
 	return out
 }
@@ -609,7 +617,7 @@ func (m *srcMode) Count() int64 {
 	if m.single != nil {
 		return 1
 	}
-	return m.nNest + m.nRand
+	return m.nNest + m.nRand + int64(len(m.fixed))
 }
 
 func (m *srcMode) decode(i int64) srcCase {
@@ -631,6 +639,11 @@ func (m *srcMode) decode(i int64) srcCase {
 		return srcCase{Cat: "nest:" + nestGens[gi].name, Recipe: fmt.Sprintf("generator %s, n=%d, %d bytes", nestGens[gi].name, n, len(s)), Opts: op, Src: s}
 	}
 	j := i - m.nNest
+	if j >= m.nRand {
+		c := m.fixed[j-m.nRand]
+		c.Opts = int((j*13+1)%64) | 1 | 8
+		return c
+	}
 	if j < int64(len(m.trunc)) {
 		t := m.trunc[j]
 		return srcCase{Cat: "trunc", Recipe: fmt.Sprintf("a lexically dense valid program truncated, or with one token deleted / doubled (%d bytes)", len(t)), Opts: int((j*29 + 1) % 64), Src: t}
